@@ -18,7 +18,8 @@ WORKLOADS = {
     'C08': dict(quick=[('stale', 16, 70, 4000)], thorough=[('stale', 300, 300, 4000), ('names', 100, 300, 4000)]),
     'C09': dict(quick=[('fail', 8, 60, 1600), ('fail', 6, 60, 1570), ('fail', 4, 50, 2100)],
                 thorough=[('fail', 150, 200, 1600), ('fail', 100, 200, 1570), ('fail', 100, 200, 2100), ('fail', 60, 200, 1545)]),
-    'C10': dict(quick=[('twin', 10, 60, 4000), ('manyobj', 3, 220, 6000)], thorough=[('twin', 200, 200, 4000), ('manyobj', 30, 400, 6000), ('fail', 60, 120, 1600)]),
+    'C10': dict(quick=[('twin', 10, 60, 4000), ('manyobj', 3, 220, 6000), ('fail', 8, 70, 1600)], thorough=[('twin', 200, 200, 4000), ('manyobj', 30, 400, 6000), ('fail', 60, 120, 1600)]),
+    'C11': dict(quick=[('hostile', 16, 150, 4000), ('hostile', 6, 150, 1600)], thorough=[('hostile', 400, 500, 4000), ('hostile', 100, 500, 1600), ('hostile', 50, 300, 40000)]),
     'C12': dict(quick=[('recycle', 16, 60, 4000), ('recycle', 6, 60, 1700)],
                 thorough=[('recycle', 300, 250, 4000), ('recycle', 150, 250, 1700), ('bigfile', 80, 150, 12000)]),
 }
@@ -37,7 +38,7 @@ def run(ctx, prop, ps, gen_bad):
             kind, proc, detail = seqengine.signature(steps[i])
             fails.append(Failure(prop, kind, proc, detail, replay=dict(header=hdr, ops=ops, corpus=name)))
     for k, (profile, nseq, nops, size) in enumerate(WORKLOADS[prop]['quick' if ctx.quick else 'thorough']):
-        fs, st = seqengine.run_profile(ctx, prop, profile, nseq, nops, size, seed_off=k * 7919)
+        fs, st = seqengine.run_profile(ctx, prop, profile, nseq, nops, size, seed_off=k * 7919, survive_only=(prop == 'C11'))
         tot['sequences'] += st['sequences']
         tot['steps'] += st['steps']
         tot['cut'] += st['cut_short']
